@@ -308,7 +308,7 @@ where
                             standard_header: DltStandardHeader {
                                 htyp: self.htyp,
                                 mcnt: (index & 0xff) as u8,
-                                len: self.len_wo_payload + (payload.len() as u16),
+                                len: self.len_wo_payload.saturating_add(payload.len() as u16),
                             },
                             extended_header: Some(DltExtendedHeader {
                                 verb_mstp_mtin: (2u8 << 1) | (2u8 << 4), // NwTrace CAN, non verb.
@@ -401,7 +401,7 @@ where
                             standard_header: DltStandardHeader {
                                 htyp: self.htyp,
                                 mcnt: (index & 0xff) as u8,
-                                len: self.len_wo_payload + (payload.len() as u16),
+                                len: self.len_wo_payload.saturating_add(payload.len() as u16),
                             },
                             extended_header: Some(DltExtendedHeader {
                                 verb_mstp_mtin: (2u8 << 1) | (2u8 << 4), // NwTrace CAN, non verb.
@@ -450,7 +450,7 @@ where
                             standard_header: DltStandardHeader {
                                 htyp: self.htyp,
                                 mcnt: (index & 0xff) as u8,
-                                len: self.len_wo_payload + (payload.len() as u16),
+                                len: self.len_wo_payload.saturating_add(payload.len() as u16),
                             },
                             extended_header: Some(DltExtendedHeader {
                                 verb_mstp_mtin: (2u8 << 1) | (2u8 << 4), // NwTrace CAN, non verb.
@@ -531,7 +531,9 @@ where
                                         standard_header: DltStandardHeader {
                                             htyp: self.htyp,
                                             mcnt: (index & 0xff) as u8,
-                                            len: self.len_wo_payload + (payload.len() as u16),
+                                            len: self
+                                                .len_wo_payload
+                                                .saturating_add(payload.len() as u16),
                                         },
                                         extended_header: Some(DltExtendedHeader {
                                             verb_mstp_mtin: (3u8 << 1) | (2u8 << 4), // Control Resp., non verb
